@@ -82,6 +82,7 @@ func vpProtoBuilder(verImpl IRoomVersion, name string) *EventBuilder {
 }
 
 // vp:check C03 both configs=version:ALLVERSIONS K=12 timeout=900
+// vp:check C17 both configs=version:1|3|4|11|12 K=12 timeout=900
 // vp_C03_roundtrip: a built event re-parses (untrusted, trusted, headered) to the same event, passes its field checks,
 // and in v3+ its ID is unchanged by edits to unsigned, by an extra signature and by redaction, and has the version's
 // alphabet; two builds differing in a hashed field get different IDs.
@@ -114,6 +115,18 @@ func vp_C03_roundtrip() {
 	}
 	vpAssert("built:auth", vpSameStrings(ev.AuthEventIDs(), wantAuth))
 	vpAssert("built-not-redacted", !ev.Redacted())
+	// the JSON has the event format of the room version (the harness's own table): format 1 carries its event_id and
+	// refers to other events by [id, hashes] pairs; format 2 carries no event_id and refers to them by ID
+	var top map[string]spec.RawJSON
+	vpAssert("built-json-parses", json.Unmarshal(ev.JSON(), &top) == nil)
+	_, hasEventID := top["event_id"]
+	vpAssert("format:event_id-key", hasEventID == (vpSpecTraits(ver).eventFormat == EventFormatV1))
+	var prevRefs []interface{}
+	vpAssert("format:prev_events-is-a-list", json.Unmarshal(top["prev_events"], &prevRefs) == nil && len(prevRefs) == 1)
+	if len(prevRefs) == 1 {
+		_, isID := prevRefs[0].(string)
+		vpAssert("format:prev_events-by-id", isID == (vpSpecTraits(ver).eventFormat == EventFormatV2))
+	}
 
 	un, err := verImpl.NewEventFromUntrustedJSON(ev.JSON())
 	vpAssert("untrusted-parse", err == nil)
